@@ -180,7 +180,10 @@ def gen_history(r, length, m, kind):
                 seq.append(v + [b[-1]])
                 continue
         c = gen.cost_vector(r, m, "grid" if style == "chains" else style)
-        seq.append(c + [gen.marker_value(r, 0.25, signed=False)])
+        mk_ = gen.marker_value(r, 0.25, signed=True)
+        if any(list(o[:-1]) == list(c) and abs(o[-1]) == abs(mk_) and o[-1] != mk_ for o in seq):
+            mk_ = abs(mk_)          # -v and +v on identical objectives would be "the same offer" twice: not generated
+        seq.append(c + [mk_])
     return seq
 
 
